@@ -2,12 +2,13 @@
    This file contains only the property theorems; each is closed by an exact lemma application.
    xml_text_tbl / xml_attr_tbl are regenerated from /repo's xmlWriter (Write / Attr) on every run.
 
-   Scope of the theorems: the XMLWriter state machine in all four configurations and the XML exporter.
-   ToHtml is modelled (Exp/Html.v) and tied by the correspondence run only.  The model follows the
+   Scope of the theorems: the XMLWriter state machine in all four configurations, the XML exporter, and the
+   modelled core of ToHtml (Exp/Html.v; the configuration ToHtml really uses is AvoidShort + PrettyPrint).
+   The model follows the
    repaired code (two fix: commits in /repo, see known_findings.json "fixed"): before the repairs the
    exporter violated the property for the map with the one key  a=(quote)1(quote) b  (key in attribute-name position) and for CR in text,
    CR/LF/TAB in attribute values; those inputs stay in the corpus of the correspondence run. *)
-From P2 Require Import Base.Prelude Exp.Json Exp.Xml Exp.XmlProofs Generated.XmlEscapes.
+From P2 Require Import Base.Prelude Exp.Json Exp.Xml Exp.XmlProofs Exp.Html Exp.HtmlProofs Generated.XmlEscapes.
 Local Open Scope N_scope.
 
 (* the decidable obligation on the regenerated tables: every exception to the identity is a reference the
@@ -53,6 +54,86 @@ Theorem C18_no_injection : forall v : xval, legal_val v = true -> is_container v
                    plain_names root = true /\ xml_decode root = Some (proj v).
 Proof. exact (no_injection xml_text_tbl xml_attr_tbl C18_table_ok). Qed.
 
+(* ---------------------------------------------------------------- ToHtml (modelled core) *)
+
+(* a balanced call sequence never makes the writer panic, in any configuration, mixed content included *)
+Theorem C18_writer_total : forall (c : wcfg) (f : list node),
+  exists out st, run c w_init (flat_map ops_of f) = Some (out, st) /\ w_open st = [].
+Proof. exact run_forest_ok. Qed.
+
+(* unmixed forests at top level (what ToHtml writes without plainList): parsed back exactly *)
+Theorem C18_forest_wellformed : forall (av pr : bool) (f : list node),
+  unmixed_forest f = true -> forallb wf_node f = true ->
+  exists out st, run (mkCfg av pr xml_text_tbl xml_attr_tbl) w_init (flat_map ops_of f) = Some (out, st) /\
+        xml_fragment out = Some (canon_forest f).
+Proof. exact (forest_wellformed xml_text_tbl xml_attr_tbl C18_table_ok). Qed.
+
+(* C18_html_wellformed: for EVERY value of the modelled core (scalars, floats, numbered lists, tables with the
+   maxListSize cut-off, plainList, maps, Format with string / css-map / failing-closure styles inline or as
+   classes, Cell, ColSpan, Link, http/https/host strings) with legal XML characters: either ToHtml answers
+   an error, or the calls it issues are balanced (exactly those of a forest f), every element and attribute
+   name of f is one of ToHtml's constants, attribute names are unique, and the writer runs to the end *)
+Theorem C18_html_wellformed : forall (maxl : N) (inline : bool) (v : hval), legal_h v = true ->
+  match to_html (eff_max maxl) inline v SNone [] with
+  | None => to_html_doc xml_text_tbl xml_attr_tbl maxl inline v = HError
+  | Some (ops, cls) =>
+      exists f out, ops = flat_map ops_of f /\ tree_of ops = Some f /\
+        forallb wf_node f = true /\ forallb hnames f = true /\
+        to_html_doc xml_text_tbl xml_attr_tbl maxl inline v = HOk out cls
+  end.
+Proof. exact (html_wellformed xml_text_tbl xml_attr_tbl). Qed.
+
+(* C18_html_no_injection_partial.  Side condition: pfree v - no plainList style anywhere in the value.
+   Then the markup ToHtml returns (AvoidShort + PrettyPrint) is accepted by the specification parser and
+   parses back to exactly the forest of the calls: every string handed to Write / Attr (texts, keys, link
+   targets, style strings, class names) is decoded exactly, and all names are ToHtml's constants.
+   Full statement (without pfree) is FALSE for the real configuration: plainList writes list elements side by
+   side and PrettyPrint then puts a line break and indentation into the character data next to an element
+   (the text of ["a", link] comes back as a+LF); for those values C18_html_wellformed still gives balance,
+   constant names and no panic, and the correspondence run compares the bytes. *)
+Theorem C18_html_no_injection_partial : forall (maxl : N) (inline : bool) (v : hval),
+  legal_h v = true -> pfree v = true ->
+  match to_html (eff_max maxl) inline v SNone [] with
+  | None => to_html_doc xml_text_tbl xml_attr_tbl maxl inline v = HError
+  | Some (ops, cls) =>
+      exists f out, ops = flat_map ops_of f /\ forallb hnames f = true /\
+        to_html_doc xml_text_tbl xml_attr_tbl maxl inline v = HOk out cls /\
+        xml_fragment out = Some (canon_forest f) /\ forallb hnames (canon_forest f) = true
+  end.
+Proof. exact (html_no_injection_partial xml_text_tbl xml_attr_tbl C18_table_ok). Qed.
+
+(* the mixed-content counterexample for the real configuration, by computation *)
+Theorem C18_html_no_injection_refuted : exists v : hval, legal_h v = true /\
+        match to_html_doc xml_text_tbl xml_attr_tbl 3 true v, to_html (eff_max 3) true v SNone [] with
+  | HOk out _, Some (ops, _) =>
+      match tree_of ops, xml_fragment out with
+      | Some f, Some g => negb (forest_eqb g (canon_forest f))
+      | _, _ => false
+      end
+  | _, _ => false
+  end = true.
+Proof.
+  exists (HFmt false 0 (SStr s_plainList) (HL [HS [97]; HLnk [108] (HS [98])])). vm_compute. split; reflexivity.
+Qed.
+
+(* tohtml_errors_not_panics: a failing closure style that toHtml reaches inside the maxListSize cut-offs
+   (relation fails, coq/Exp/Html.v) makes ToHtml answer an error - never a document cut off at that element *)
+Theorem C18_tohtml_errors : forall (maxl : N) (inline : bool) (v : hval),
+  fails (eff_max maxl) v SNone -> to_html_doc xml_text_tbl xml_attr_tbl maxl inline v = HError.
+Proof. exact (html_errors xml_text_tbl xml_attr_tbl). Qed.
+
+(* non-vacuity of fails: the failing element is the last rendered row (error) / the first cut-off row (no error) *)
+Example C18_errors_nonvacuous :
+  let bad := HFmt false 0 SCloErr (HL [HS [118]]) in
+  fails (eff_max 2) (HL [HS [97]; bad; HS [99]]) SNone /\
+        to_html_doc xml_text_tbl xml_attr_tbl 2 true (HL [HS [97]; bad; HS [99]]) = HError /\
+        match to_html_doc xml_text_tbl xml_attr_tbl 2 true (HL [HS [97]; HS [98]; bad]) with HOk _ _ => True | _ => False end.
+Proof.
+  cbn zeta. split; [|split; vm_compute; [reflexivity|exact I]].
+  eapply (F_list _ _ (HS [97]) 1%nat); try reflexivity.
+  apply T_list; [reflexivity|apply F_here].
+Qed.
+
 (* non-vacuity: a nested value with hostile keys and strings; the former failing inputs *)
 Example C18_nonvacuous :
   let v := VL [VM [([97; 61; 34; 49; 34; 32; 98], VS [50])];                (* key a=(quote)1(quote) b, value 2 *)
@@ -72,3 +153,9 @@ Print Assumptions C18_balanced.
 Print Assumptions C18_writer_wellformed.
 Print Assumptions C18_exporter_ops_ok.
 Print Assumptions C18_no_injection.
+Print Assumptions C18_writer_total.
+Print Assumptions C18_forest_wellformed.
+Print Assumptions C18_html_wellformed.
+Print Assumptions C18_html_no_injection_partial.
+Print Assumptions C18_html_no_injection_refuted.
+Print Assumptions C18_tohtml_errors.
